@@ -26,6 +26,7 @@ PROGRAMS = [
     "from .shapes import area\nfrom shapes import volume\nimport os.path as p\nsquares = [n * n for n in range(5) if n]\n"
     "async def go(src):\n    return [v async for v in src]\nprint(area, volume, squares, p)\n",
     "count = 0\nfor item in basket:\n    count = count + 1\n    price = item + 1\nprint(count + 1, price * 2)\n",
+    "a = 0\nprint(b)\nc = 5\nprint(a)\nfor i in data:\n    print(x)\n    print(y)\n    z = x\n",
     "total = 0\nseen = 0\ndef bump():\n    global total\n    total = total + 1\ndef both():\n    global total, seen\n    seen = 1\n"
     "raw = b'abc'\nz = 2j\ndef inner():\n    v = 1\n    def g():\n        nonlocal v\n        v = 2\n",
 ]
@@ -42,6 +43,8 @@ HAND_PATTERNS = [
     "[___ for ___ in ___]", "[_x_ * _x_ for _x_ in ___ if _x_]", "import os.path as p",
     "global total", "global total, seen", "global seen, total", "global seen", "raw = b'abc'", "raw = b'zzz'", "_r_ = b'abc'",
     "_r_ = b''", "z = 2j", "z = 3j", "_z_ = 2j", "nonlocal v", "nonlocal v, w",
+    "_x_ = 0\nprint(_x_)\n_y_ = 5", "_x_ = 0\nprint(_x_)", "for _i_ in __a__:\n    print(__b__)", "for _i_ in ___:\n    print(__b__)\n    _z_ = __b__",
+    "print(__b__)\nprint(__c__)", "_p_ = ___\nprint(_q_)\n_r_ = ___\nprint(_p_)",
     "for _w_ in ___:\n    print(_w_)", "for _w_ in ___:\n    print(len(_w_))", "for _w_ in ___:\n    print(_q_)",
 ]
 
